@@ -240,9 +240,11 @@ def mk_op(rng, n, terms=None, as_label=False, real=False):
         pairs = [(q, rng.randint(1, 3)) for q in sorted(qs)]
         s = " ".join("XYZ"[p - 1] + str(q) for q, p in pairs)
         return Op(pauli_label(s), O.pauli_label_matrix(pairs, n), [[s, 1.0]])
+    mat = np.zeros((2 ** n, 2 ** n), dtype=complex)
+    if rng.random() < 0.08:
+        return Op(Operator(), mat, [])  # the zero operator (e.g. op - op): its estimate is 0 and it keeps its batch slot
     terms = rng.randint(2, 5) if terms is None else terms
     d, desc = {}, []
-    mat = np.zeros((2 ** n, 2 ** n), dtype=complex)
     for _ in range(terms):
         k = rng.randint(0, n) if rng.random() < 0.15 else rng.randint(1, n)
         qs = rng.sample(range(n), k)
